@@ -12,6 +12,7 @@ from harness import core
 META = {
     "ops": "oneof,choice,mix",
     "driver": "drv_oneof",
+    "translators": [],
     "technique": "Lean 4 proof (induction over call histories, all shuffle outcomes) + correspondence with scripted random source",
     "level_text": "Kernel-checked theorems for every n>=2, every history length and every sequence of shuffle outcomes: no "
                   "back-to-back repeat, every aligned block a permutation, key independence for any interleaving, choice "
@@ -191,6 +192,17 @@ def gen_lines(ctx, deep=False):
         calls = []
         for _ in range(rng.randint(4, 30)):
             sid, n, alts, style = rng.choice(sites)
+            calls.append({"site": sid, "key": site_key(sid, alts, style), "alts": alts, "perm": rng.sample(range(n), n), "style": style})
+        lines.append({"op": "oneof", "calls": calls})
+    # sites that differ only in object identity / only in values: same length, same callable pattern
+    for _ in range(300 if ctx.tier == "quick" else 10000):
+        n = rng.choice([2, 2, 3, 4])
+        alts = rng.choice(["f" * n, "v" * n, "".join(rng.choice("vf") for _ in range(n))])
+        style = rng.choice(["list", "args"])
+        k = rng.choice([2, 3])
+        calls = []
+        for _ in range(rng.randint(2 * n, 6 * n)):
+            sid = "t%d" % rng.randrange(k)
             calls.append({"site": sid, "key": site_key(sid, alts, style), "alts": alts, "perm": rng.sample(range(n), n), "style": style})
         lines.append({"op": "oneof", "calls": calls})
     # choice and mix
